@@ -64,6 +64,9 @@ type Inv struct {
 	CPUs int
 	// Prepopulated counts destinations the generator created before the run (statistics)
 	Prepopulated int
+	// Blockers are regular files the generator put where the run needs a directory: the
+	// destinations below them cannot be written
+	Blockers []string
 	StaleBaks    int
 }
 
@@ -274,6 +277,20 @@ type Job struct {
 	Type   string
 	Want   []byte // expected destination content
 	Failed bool   // the library rejects the input: destination gets the original bytes
+	// Blocked: a regular file sits where a parent directory of Dst would have to be; the
+	// destination cannot exist after the run and the file in the way is not to be touched
+	Blocked bool
+}
+
+// blockedBy reports whether path p lies below (or is) one of the blocker files.
+func (iv *Inv) blockedBy(p string) bool {
+	p = filepath.Clean(p)
+	for _, b := range iv.Blockers {
+		if p == b || strings.HasPrefix(p, b+"/") {
+			return true
+		}
+	}
+	return false
 }
 
 // Expectation is the model's prediction for an invocation on a tree.
@@ -415,7 +432,16 @@ func (iv *Inv) Expect(t *Tree) *Expectation {
 	} else if iv2.Output == "-" {
 		iv2.Output = ""
 	}
-	return iv2.expect(t)
+	ex := iv2.expect(t)
+	if len(iv.Blockers) > 0 && !ex.Rejected {
+		for i := range ex.Jobs {
+			if ex.Jobs[i].Dst != "" && iv.blockedBy(ex.Jobs[i].Dst) {
+				ex.Jobs[i].Blocked = true
+				ex.ExitNZ = true // a selected file could not be written
+			}
+		}
+	}
+	return ex
 }
 
 func (iv *Inv) expect(t *Tree) *Expectation {
